@@ -42,6 +42,9 @@ unsigned gh_n_notify;                                         /* condition_varia
       gh_mv_tp = IT_TP(pr_it); gh_mv_own = PR_OWN(src); gh_mv_id = IT_ID(pr_it); } } while (0)
 #include "model_vec_heap.c"
 #include "model_promise.c"
+#ifdef CV_HAS_var_from_promise
+#include "model_variant_expired.c"
+#endif
 
 /* std::condition_variable (external): notify_all wakes the worker; counted.  Construction / destruction: no effect here. */
 void _ZNSt18condition_variable10notify_allEv(struct S_class_std__condition_variable *cv) { gh_n_notify++; }
@@ -52,11 +55,12 @@ void _ZSt20__throw_system_errori(cv_i32 e) { __CPROVER_assert(0, "std::mutex::lo
 /* ------------------------------------------------------------------ invariant of the scheduled vector */
 #define VEC_WF      (vec_n < VEC_MAX_N && vec_heap_len == vec_n && vec_tin <= 1 && (vec_tin ==> vec_tpos < vec_n) && VEC_SLOTS_WF && VEC_KNOWN)
 #define VEC_HI(i)   ((i) < vec_n ==> IT_TP(VEC_AT(0)) <= IT_TP(VEC_AT(i)))
+#define VEC_HI_T    (vec_tin ==> VEC_HI(vec_tpos))
 #define TRK_SAME    (vec_tin && vec_tpos < vec_n && IT_TP(VEC_AT(vec_tpos)) == gh_t_tp && IT_OWN(VEC_AT(vec_tpos)) == gh_t_own && IT_ID(VEC_AT(vec_tpos)) == gh_t_id)
 #define TRK_LIVE0   (gh_t_in0 && gh_t_own != 0)                    /* the tracked entry was a pending sleep at entry */
 #define TRK_PIN     (gh_t_in0 == vec_tin && (vec_tin ==> (gh_t_tp == IT_TP(VEC_AT(vec_tpos)) && gh_t_own == IT_OWN(VEC_AT(vec_tpos)) && gh_t_id == IT_ID(VEC_AT(vec_tpos)))))
 #define SCH_PRE(this_) (cv_exc_pending == 0 && __CPROVER_is_fresh(this_, sizeof(*this_)) && gh_sched_mx == (void *)&(this_)->_mx && \
-                        VEC_WF && VEC_CANON && VEC_HI(gh_G) && VEC_HI(vec_tpos) && TRK_PIN && gh_n0 == vec_n)
+                        VEC_WF && VEC_CANON && VEC_HI(gh_G) && VEC_HI_T && TRK_PIN && gh_n0 == vec_n)
 #define MODEL_ASSIGNS VEC_MODEL_ASSIGNS, gh_mv_tp, gh_mv_own, gh_mv_id, \
                       gh_pr_n_dropped, gh_pr_n_val, gh_pr_n_exc, gh_W_dropped, gh_W_val, gh_W_exc, gh_W_excobj, gh_pr_last_own, gh_pr_last_excobj, gh_pr_sp_cf, gh_pr_sp_h0
 #define LOCK_ASSIGNS  gh_lock_held, gh_lock_depth, gh_n_lock, gh_n_unlock
@@ -107,10 +111,10 @@ __CPROVER_ensures(TRK_LIVE0 ==> (TRK_SAME || (!vec_tin && RET_IDX(ret) == 1 && R
 __CPROVER_ensures(NO_COMPLETION)                                                                          /* nothing is resolved or dropped here */
 
 #define GE_LOOP_INV \
-  (cv_exc_pending == 0 && SCH_LOCKED && VEC_WF && VEC_CANON && VEC_HI(gh_G) && VEC_HI(vec_tpos) && vec_n <= gh_n0 && (TRK_LIVE0 ==> TRK_SAME))
+  (cv_exc_pending == 0 && SCH_LOCKED && VEC_WF && VEC_CANON && VEC_HI(gh_G) && VEC_HI_T && vec_n <= gh_n0 && (TRK_LIVE0 ==> TRK_SAME))
 #define CV_LOOP_sch_get_expired_lk_0 \
   __CPROVER_assigns(CV_LOOP_LOCALS_sch_get_expired_lk_0, MODEL_ASSIGNS, __CPROVER_object_whole(agg_result)) \
-  __CPROVER_loop_invariant(GE_LOOP_INV) \
+  __CPROVER_loop_invariant(GE_LOOP_INV && now__mem.__d.__r == now_coerce) \
   __CPROVER_loop_invariant(gh_pr_n_dropped == __CPROVER_loop_entry(gh_pr_n_dropped) && gh_pr_n_val == __CPROVER_loop_entry(gh_pr_n_val) && gh_pr_n_exc == __CPROVER_loop_entry(gh_pr_n_exc))
 
 #ifdef CV_HAS_sch_get_expired_lk_U
@@ -132,7 +136,7 @@ GE_POST(ret, now)
 
 /* ------------------------------------------------------------------ remove(id) */
 #define RM_LOOP_INV \
-  (cv_exc_pending == 0 && SCH_LOCKED && VEC_WF && VEC_CANON && VEC_HI(gh_G) && VEC_HI(vec_tpos) && vec_n <= gh_n0 && (TRK_LIVE0 ==> TRK_SAME) && gh_n_lock == __CPROVER_loop_entry(gh_n_lock))
+  (cv_exc_pending == 0 && SCH_LOCKED && VEC_WF && VEC_CANON && VEC_HI(gh_G) && VEC_HI_T && vec_n <= gh_n0 && (TRK_LIVE0 ==> TRK_SAME) && gh_n_lock == __CPROVER_loop_entry(gh_n_lock))
 #define CV_LOOP_sch_remove_0 \
   __CPROVER_assigns(CV_LOOP_LOCALS_sch_remove_0, MODEL_ASSIGNS, __CPROVER_object_whole(agg_result)) \
   __CPROVER_loop_invariant(RM_LOOP_INV) \
